@@ -64,6 +64,7 @@ type (
 		Elems []AV
 	}
 	Spread struct{ V AV }            // all elements of a symbolic slice
+	CellV  struct{ V AV }            // the address of a variable that is never assigned again and holds V (a captured constant): state-independent
 	MapV   struct{ M map[string]AV } // finite map with known entries (keyed by the key's rendering); other keys absent
 	Tuple  struct{ Vs []AV }
 	Top    struct{ Why string }
@@ -113,6 +114,7 @@ func (s SliceV) String() string {
 	return "[" + strings.Join(xs, ", ") + "]"
 }
 func (s Spread) String() string { return s.V.String() + "..." }
+func (c CellV) String() string  { return "&const(" + c.V.String() + ")" }
 func (m MapV) String() string   { return fmt.Sprintf("map[%d entries]", len(m.M)) }
 func (t Tuple) String() string {
 	var xs []string
@@ -406,6 +408,8 @@ type CallCtx struct {
 }
 
 type Interp struct {
+	// LazyFields: configured values computed on demand (after Fields)
+	LazyFields func(key string) (AV, bool)
 	// EmptyMaps: symbolic map-valued locations (by key) that hold an empty map when first read
 	EmptyMaps func(key string) bool
 	W *World
@@ -783,6 +787,8 @@ func locKey(addr AV) string {
 
 func (in *Interp) load(st *State, addr AV, t types.Type, pos token.Pos) AV {
 	switch a := addr.(type) {
+	case CellV:
+		return a.V
 	case Ref:
 		o := st.heap[a.ID]
 		if o == nil {
@@ -861,6 +867,11 @@ func (in *Interp) load(st *State, addr AV, t types.Type, pos token.Pos) AV {
 		}
 		if v, ok := in.Fields[key]; ok {
 			return in.refined(st, v)
+		}
+		if in.LazyFields != nil {
+			if v, ok := in.LazyFields(epochRe.ReplaceAllString(key, "")); ok {
+				return in.refined(st, v)
+			}
 		}
 		// configured fields are facts about the input, not memory the callees may have changed
 		if strings.Contains(key, "@") {
